@@ -69,6 +69,9 @@ func modDateAdd(ctx *Ctx, buf *any, val any, args []any) (err error) {
 }
 
 func dateConv(val any) (t time.Time, ok bool) {
+	if typedNil(val) {
+		return
+	}
 	ok = true
 	switch x := val.(type) {
 	case time.Time:
